@@ -222,7 +222,9 @@ def c08_grid(tier, seed):
             if "." in s and len(s.split(".")[1]) > p: bad.append({"value": repr(v), "precision": p, "text": s, "why": "more decimals than configured"}); break
             err = abs(Fraction(s) - exact)
             # numpy rounds the SHORTEST REPR of the double, not the double itself: allow the distance between the two (< 1 ulp) on top of half a unit
-            slack = abs(Fraction(repr(float(v))) - exact) if not isinstance(v, (int, bool)) else 0
+            # (for numpy scalars narrower than a double the shortest repr is taken in the scalar's own precision: np.float16(0.333) prints as 0.333)
+            own = np.format_float_positional(v, unique=True, trim="-") if isinstance(v, np.floating) else repr(float(v)) if not isinstance(v, (int, bool, np.integer)) else None
+            slack = abs(Fraction(own) - exact) if own is not None else 0
             worst = max(worst, err - half)
             if err > half + slack: bad.append({"value": repr(v), "precision": p, "text": s, "error": str(err), "half_unit": str(half)}); break
         if bad: break
@@ -287,3 +289,183 @@ def c09_bridge(tier, seed):
 
 
 BOUNDED.setdefault("C08", []).append(("comment-confinement-end-to-end", c09_bridge))
+
+
+# ---------------------------------------------------------------------------------------------- C10: arc_radius geometry (bounded)
+@bounded("C10", "arc-radius-centre")
+def c10_arc_radius(tier, seed):
+    """bounded stand-in for the two arc_radius clauses the solvers do not decide: the centre handed to arc() is at distance |radius|
+    from both ends, on the side that makes the sweep minor for radius > 0 and major for radius < 0"""
+    from gscrib import GCodeBuilder
+    rnd = random.Random(seed or 1)
+    n = 400 if tier == "quick" else 50000
+    bad = []
+    for i in range(n):
+        g = GCodeBuilder()
+        for w_ in list(g._writers): g.remove_writer(w_)
+        ox, oy = rnd.uniform(-50, 50), rnd.uniform(-50, 50)
+        g.set_axis(x=ox, y=oy, z=0)
+        rel = rnd.random() < 0.5
+        if rel: g.set_distance_mode("relative")
+        g.set_direction(rnd.choice(["cw", "ccw"]))
+        tx, ty = rnd.uniform(-50, 50), rnd.uniform(-50, 50)
+        d = math.hypot(tx - ox, ty - oy)
+        if d < 1e-3: continue
+        r = rnd.choice([-1, 1]) * d / 2 * rnd.uniform(1.0001, 4.0)
+        seen = {}
+        orig = g.trace.arc
+        def spy(target, center, **kw): seen["c"] = center
+        g.trace.arc = spy
+        try:
+            g.trace.arc_radius((tx - ox, ty - oy) if rel else (tx, ty), r)
+        finally:
+            g.trace.arc = orig
+        cx, cy = ox + seen["c"][0], oy + seen["c"][1]
+        e1, e2 = math.hypot(cx - ox, cy - oy), math.hypot(cx - tx, cy - ty)
+        cross = (tx - ox) * (cy - oy) - (ty - oy) * (cx - ox)
+        cw = g.state.direction.value == "clockwise"
+        minor = (cross <= 1e-9) if cw else (cross >= -1e-9)
+        major = (cross >= -1e-9) if cw else (cross <= 1e-9)
+        if abs(e1 - abs(r)) > 1e-7 * max(1, abs(r)) or abs(e2 - abs(r)) > 1e-7 * max(1, abs(r)) or (r > 0 and not minor) or (r < 0 and not major):
+            bad.append({"start": [ox, oy], "target": [tx, ty], "radius": r, "relative": rel, "direction": g.state.direction.value, "centre": [cx, cy], "dist_start": e1, "dist_target": e2, "cross": cross}); break
+    res = {"name": "arc-radius-centre", "cases": n, "bounded": True, "status": "violated" if bad else "held",
+           "summary": f"{n} seeded random (start, target, radius, direction, mode): centre handed to arc() is |radius| from both ends (1e-7 rel.) and on the minor/major side by the sign of the radius"}
+    if bad: res["replay"] = {"reproduced": True, "path": _save("C10", "arc-radius", bad[0]), "witness": bad[0]}
+    return res
+
+
+# ---------------------------------------------------------------------------------------------- C10/C11/C12: real tracer, end to end (bounded)
+def _trace_vertices(setup, shape, rel, res, units=None):
+    """absolute machine vertices produced by one tracer call on the real builder (independent G0/G1/G90/G91 interpreter on the output)"""
+    import io
+    from gscrib import GCodeBuilder
+    from specs.lexer import lex_line
+    o = io.BytesIO(); g = GCodeBuilder(output=o, decimal_places=9, line_endings="\\n")
+    g.set_resolution(res)
+    g.set_axis(x=setup[0], y=setup[1], z=setup[2])
+    g.set_direction(shape.get("dir", "cw"))
+    if rel: g.set_distance_mode("relative")
+    start = (setup[0], setup[1], setup[2])
+    def T(p):   # express an absolute target in the current mode
+        return tuple(a - b for a, b in zip(p, start)) if rel else p
+    k = shape["kind"]
+    if k == "arc": g.trace.arc(T(shape["target"]), shape["center"])
+    elif k == "arc_radius": g.trace.arc_radius(T(shape["target"]), shape["radius"])
+    elif k == "circle": g.trace.circle(shape["center"])
+    elif k == "helix": g.trace.helix(T(shape["target"]), shape["center"], shape["turns"])
+    elif k == "spiral": g.trace.spiral(T(shape["target"]), shape["turns"])
+    elif k == "thread": g.trace.thread(T(shape["target"]), shape["pitch"])
+    elif k == "spline":
+        pts, prev = [], start
+        for p in shape["points"]:
+            pts.append(tuple(a - b for a, b in zip(p, prev)) if rel else p); prev = p
+        g.trace.spline(pts)
+    elif k == "polyline":
+        pts, prev = [], start
+        for p in shape["points"]:
+            pts.append(tuple(a - b for a, b in zip(p, prev)) if rel else p); prev = p
+        g.trace.polyline(pts)
+    g.flush()
+    pos, relm, out = list(start), False, []
+    for line in o.getvalue().decode().split("\n")[:-1]:
+        L = lex_line(line)
+        for c in L["cmds"]:
+            if c == "G90": relm = False
+            if c == "G91": relm = True
+        if any(c in ("G1", "G01", "G0", "G00") for c in L["cmds"]):
+            for i, a in enumerate("XYZ"):
+                if a in L["words"]: pos[i] = pos[i] + L["words"][a] if relm else L["words"][a]
+            out.append(tuple(pos))
+        if "G92" in L["cmds"]:
+            for i, a in enumerate("XYZ"):
+                if a in L["words"]: pos[i] = L["words"][a]
+    return out
+
+
+def _rand_shape(rnd, start):
+    k = rnd.choice(["arc", "arc_radius", "circle", "helix", "spiral", "thread", "spline", "polyline"])
+    sx, sy, sz = start
+    r = rnd.uniform(1, 30); a0 = rnd.uniform(-math.pi, math.pi); a1 = rnd.uniform(-math.pi, math.pi)
+    cx, cy = sx - r * math.cos(a0), sy - r * math.sin(a0)
+    s = {"kind": k, "dir": rnd.choice(["cw", "ccw"])}
+    if k == "arc": s.update(target=(cx + r * math.cos(a1), cy + r * math.sin(a1), sz + rnd.uniform(-3, 3)), center=(cx - sx, cy - sy), r=r, c=(cx, cy))
+    elif k == "arc_radius":
+        t = (sx + rnd.uniform(-20, 20), sy + rnd.uniform(-20, 20), sz)
+        d = math.hypot(t[0] - sx, t[1] - sy)
+        if d < 0.5: t = (sx + 5, sy, sz); d = 5
+        s.update(target=t, radius=rnd.choice([-1, 1]) * d / 2 * rnd.uniform(1.05, 3))
+    elif k == "circle": s.update(center=(cx - sx, cy - sy), r=r, c=(cx, cy))
+    elif k == "helix": s.update(target=(cx + rnd.uniform(1, 30) * math.cos(a1), cy + rnd.uniform(1, 30) * math.sin(a1), sz + rnd.uniform(-5, 5)), center=(cx - sx, cy - sy), turns=rnd.randint(1, 3), c=(cx, cy))
+    elif k == "spiral": s.update(target=(sx + rnd.uniform(2, 20), sy + rnd.uniform(2, 20), sz + rnd.uniform(-2, 2)), turns=rnd.randint(1, 3))
+    elif k == "thread": s.update(target=(sx + rnd.uniform(2, 10), sy + rnd.uniform(-10, 10), sz + rnd.uniform(2, 8)), pitch=rnd.uniform(0.5, 2))
+    else: s.update(points=[(sx + rnd.uniform(-20, 20), sy + rnd.uniform(-20, 20), sz + rnd.uniform(-2, 2)) for _ in range(rnd.randint(2, 5))])
+    return s
+
+
+def _tracer_bounded(tier, seed):
+    rnd = random.Random(seed or 1)
+    n = 40 if tier == "quick" else 3000
+    bad = []
+    stats = {"shapes": 0, "c11_pairs": 0, "c12_constant_speed": 0}
+    for i in range(n):
+        start = (rnd.uniform(-40, 40), rnd.uniform(-40, 40), rnd.uniform(-5, 5))
+        sh = _rand_shape(rnd, start)
+        res = rnd.choice([0.05, 0.1, 0.5, 1.0, 2.0])
+        try:
+            va = _trace_vertices(start, sh, False, res); vr = _trace_vertices(start, sh, True, res)
+        except Exception as e:
+            bad.append({"shape": sh, "start": start, "why": f"raised {type(e).__name__}: {e}"}); break
+        stats["shapes"] += 1
+        # C11: same vertices in both distance modes
+        stats["c11_pairs"] += 1
+        # relative mode rounds every offset to the configured 9 decimals: the error accumulates linearly with the number of segments
+        tol = 1e-6 + 1e-9 * len(va)
+        if len(va) != len(vr) or any(max(abs(a - b) for a, b in zip(p, q)) > tol for p, q in zip(va, vr)):
+            bad.append({"property": "C11", "shape": sh, "start": start, "resolution": res, "abs": va[:3], "rel": vr[:3], "why": "absolute and relative runs differ"}); break
+        tgt = sh.get("target") or (sh.get("points") or [start])[-1] if sh["kind"] != "circle" else start
+        if max(abs(a - b) for a, b in zip(va[-1], tgt)) > 1e-6:
+            bad.append({"property": "C10", "shape": sh, "start": start, "why": f"ends on {va[-1]} instead of {tgt}"}); break
+        if sh["kind"] in ("arc", "circle"):
+            cx, cy = sh["c"]
+            if any(abs(math.hypot(p[0] - cx, p[1] - cy) - sh["r"]) > 1e-6 for p in va):
+                bad.append({"property": "C10", "shape": sh, "start": start, "why": "vertex off the circle"}); break
+        if sh["kind"] == "thread":
+            mx, my = (start[0] + sh["target"][0]) / 2, (start[1] + sh["target"][1]) / 2
+            r0 = math.hypot(start[0] - mx, start[1] - my)
+            if any(abs(math.hypot(p[0] - mx, p[1] - my) - r0) > 1e-6 for p in va):
+                bad.append({"property": "C10", "shape": sh, "start": start, "why": "thread radius not constant"}); break
+        if sh["kind"] == "spline":
+            ctrl = sh["points"]; j = 0
+            for c in ctrl:            # every control point, in order, within one resolution of some vertex
+                while j < len(va) and math.dist(va[j], c) > res: j += 1
+                if j == len(va): bad.append({"property": "C10", "shape": sh, "start": start, "resolution": res, "why": f"control point {c} not approached within one resolution, in order"}); break
+            if bad: break
+        if sh["kind"] == "polyline" and [tuple(round(c, 6) for c in p) for p in va] != [tuple(round(c, 6) for c in p) for p in sh["points"]]:
+            bad.append({"property": "C10", "shape": sh, "start": start, "why": "polyline does not visit exactly the given points"}); break
+        # C12
+        if sh["kind"] in ("arc", "circle", "arc_radius") and len(va) >= 4:
+            stats["c12_constant_speed"] += 1
+            segs = [math.dist(p, q) for p, q in zip([start] + va[:-1], va)]
+            if max(segs) > 1.05 * res + 1e-9 or min(segs[1:-1]) < 0.85 * res:
+                bad.append({"property": "C12", "shape": sh, "start": start, "resolution": res, "max": max(segs), "min_interior": min(segs[1:-1]), "why": "segment length outside about [0.9, 1] resolution"}); break
+        vh = _trace_vertices(start, sh, False, res / 2)
+        if len(vh) < len(va):
+            bad.append({"property": "C12", "shape": sh, "start": start, "resolution": res, "why": f"halving the resolution gave fewer segments ({len(vh)} < {len(va)})"}); break
+    return bad, stats, n
+
+
+def _tracer_res(prop):
+    def f(tier, seed):
+        bad, stats, n = _tracer_bounded(tier, seed)
+        mine = [b for b in bad if b.get("property", prop) == prop or "property" not in b]
+        res = {"name": "tracer-end-to-end", "cases": n, "bounded": True, "status": "violated" if mine else "held",
+               "summary": f"{stats['shapes']} seeded random shapes (8 kinds, both directions, both distance modes, 5 resolutions) on the real builder, output read back by the independent "
+                          f"interpreter: end on target, curve membership (arc/circle/thread), spline control points within one resolution in order, polyline exact, abs==rel vertex by vertex, "
+                          f"segment lengths in about [0.9, 1]·resolution for constant-speed shapes ({stats['c12_constant_speed']}), halving the resolution never gives fewer segments"}
+        if mine: res["replay"] = {"reproduced": True, "path": _save(prop, "tracer", mine[0]), "witness": mine[0]}
+        return res
+    return f
+
+
+for _p in ("C10", "C11", "C12"):
+    BOUNDED.setdefault(_p, []).append(("tracer-end-to-end", _tracer_res(_p)))
